@@ -163,3 +163,58 @@ M("c05-read-next", ["C05"], PYEVAL,
   '        return sim.slots[slot].curr', '        return sim.slots[slot].next', "R-05d")
 M("c05-assign-switch-all-cases", ["C05"], PYEVAL,
   '                _eval_assign_inner(sim, val, lhs_start, rhs, rhs_len)\n                return', '                _eval_assign_inner(sim, val, lhs_start, rhs, rhs_len)', "R-05d")
+
+# ------------------------------------------------------------------------------------------------ C03
+M("c03-async-reset-on-domain-process", ["C03"], PYRTL,
+  '                    processes.add(self.compile_async_reset(domain, lhs_masks))',
+  '                    self.state.add_signal_waker(domain.rst, edge_waker(domain_process, 1))', "R-03a")
+M("c03-clk-polarity-const", ["C03"], PYRTL,
+  'self.state.add_signal_waker(domain.clk, edge_waker(domain_process, clk_polarity))',
+  'self.state.add_signal_waker(domain.clk, edge_waker(domain_process, 1))', "R-03a")
+M("c03-rst-waker-clk-polarity", ["C03"], PYRTL,
+  'self.state.add_signal_waker(domain.rst, edge_waker(reset_process, 1))',
+  'self.state.add_signal_waker(domain.rst, edge_waker(reset_process, 0))', "R-03a")
+M("c03-async-reset-resets-reset-less", ["C03"], PYRTL,
+  '                if not signal.reset_less:\n                    signal_index = self.state.get_signal(signal)\n                    emitter.append(f"slots[{signal_index}].update({signal.init})")',
+  '                if True:\n                    signal_index = self.state.get_signal(signal)\n                    emitter.append(f"slots[{signal_index}].update({signal.init})")', "R-03a")
+M("c03-sim-reset-block-reset-less", ["C03"], PYRTL,
+  '                            if not signal.reset_less:\n                                signal_index = self.state.get_signal(signal)\n                                emitter.append(f"next_{signal_index} = {signal.init}")',
+  '                            if True:\n                                signal_index = self.state.get_signal(signal)\n                                emitter.append(f"next_{signal_index} = {signal.init}")', "R-03b")
+M("c03-ir-sync-reset-ignores-reset-less", ["C03"], IR,
+  '                        not driver.domain.async_reset and\n                        not driver.signal.reset_less):',
+  '                        not driver.domain.async_reset):', "R-03b")
+M("c03-renamer-memory-ports-dropped", ["C03"], XFRM,
+  '        for port in new_fragment._write_ports:\n            if port._domain in self.domain_map:\n                port._domain = self.domain_map[port._domain]\n\n    def on_fragment(self, fragment):\n        new_fragment = super().on_fragment(fragment)\n        if isinstance(new_fragment, RequirePosedge)',
+  '\n    def on_fragment(self, fragment):\n        new_fragment = super().on_fragment(fragment)\n        if isinstance(new_fragment, RequirePosedge)', "R-03c")
+M("c03-enable-skips-write-ports", ["C03"], XFRM,
+  '            for port in new_fragment._write_ports:\n                if port._domain in self.controls:\n                    port._en = Mux(self.controls[port._domain], port._en, Const(0, len(port._en)))\n', '', "R-03e")
+M("c03-mask-collector-hoisted", ["C03"], XFRM,
+  '        for domain, statements in fragment.statements.items():\n            if domain == "comb" or domain not in self.controls:\n                continue\n            lhs_masks = LHSMaskCollector()\n',
+  '        lhs_masks = LHSMaskCollector()\n        for domain, statements in fragment.statements.items():\n            if domain == "comb" or domain not in self.controls:\n                continue\n', "R-03c")
+M("c03-transformer-drops-transparent-for", ["C03"], XFRM,
+  '                    transparent_for=port._transparent_for,', '                    transparent_for=(),', "R-03d")
+M("c03-collector-skips-write-port-domain", ["C03"], XFRM,
+  '            for port in fragment._write_ports:\n                self.on_value(port._addr)\n                self.on_value(port._data)\n                self.on_value(port._en)\n                self._add_used_domain(port._domain)',
+  '            for port in fragment._write_ports:\n                self.on_value(port._addr)\n                self.on_value(port._data)\n                self.on_value(port._en)', "R-03c")
+
+# ------------------------------------------------------------------------------------------------ C06
+M("c06-cycle-extra-nets-uncovered", ["C06"], NIR,
+  'if cycle is not None and (cycle.start == net or cycle.start in extra_nets):', 'if cycle is not None and cycle.start == net:', "R-06a")
+M("c06-connect-no-conflict-test", ["C06"], IR,
+  '            if left in self.netlist.connections:\n                signal, bit = self.late_net_to_signal[left]', '            if False:\n                signal, bit = self.late_net_to_signal[left]', "R-06c")
+M("c06-check-after-resolve", ["C06"], IR,
+  '    netlist.check_comb_cycles()\n    netlist.resolve_all_nets()', '    netlist.resolve_all_nets()\n    netlist.check_comb_cycles()', "R-06b")
+M("c06-part-per-bit", ["C06"], NIR,
+  '        for net in self.offset:\n            yield (net, self.src_loc)\n\n    def comb_edges_is_per_bit(self) -> bool:\n        return False',
+  '        for net in self.offset:\n            yield (net, self.src_loc)\n\n    def comb_edges_is_per_bit(self) -> bool:\n        return True', "R-06d")
+M("c06-operator-mux-not-per-bit", ["C06"], NIR,
+  '        elif len(self.inputs) == 3:\n            return True\n        return False', '        return False', "R-06d")
+M("c06-match-edges-filtered", ["C06"], NIR,
+  '        yield (self.en, self.src_loc)\n        for net in self.value:\n            yield (net, self.src_loc)',
+  '        yield (self.en, self.src_loc)\n        for index, net in enumerate(self.value):\n            if index % 2:\n                yield (net, self.src_loc)', "R-06d")
+M("c06-ff-data-edge", ["C06"], NIR,
+  '        yield (self.clk, self.src_loc)\n        yield (self.arst, self.src_loc)', '        yield (self.clk, self.src_loc)\n        yield (self.arst, self.src_loc)\n        yield (self.data[bit], self.src_loc)', "R-06d")
+M("c06-iobuffer-direct-emit-io", ["C06"], IR,
+  '        port = self.emit_io_use(instance.port, src_loc=instance.src_loc)', '        port = self.emit_io(instance.port)', "R-06c")
+M("c06-early-check-no-raise", ["C06"], "amaranth/hdl/_dsl.py",
+  '                    if sig_domain[bit] != domain:\n                        raise SyntaxError(', '                    if False:\n                        raise SyntaxError(', "R-06e")
